@@ -923,6 +923,16 @@ func b4(w *World, r *Report) {
 						scan(cal, depth+1)
 					}
 				}
+				// handlers picked from a dispatch table
+				if lk, isL := in.(*ssa.Lookup); isL {
+					if lm := w.literalMap(stripConv(lk.X)); lm != nil {
+						for _, ent := range lm.Entries {
+							if cal, _ := w.calleeOfValue(ent.Val); cal != nil && w.InModule(cal) && w.FuncPkgPath(cal) == w.FuncPkgPath(q) {
+								scan(cal, depth+1)
+							}
+						}
+					}
+				}
 			}
 		}
 	}
